@@ -1,6 +1,7 @@
 import NodisVerif.Wire
 import NodisVerif.Model.Skiplist
 import NodisVerif.Model.SkiplistZSet
+import NodisVerif.Model.SkiplistZRange
 import NodisVerif.Driver.ApiOps
 /- driver commands for the pointer-level skiplist tie: `sl <op> <args…> [lvl=<h>]` (see DESIGN_NOTES.md) -/
 namespace NodisVerif.Driver
@@ -131,6 +132,24 @@ def slzOp (p : PZSet) (toks : List String) : PZSet × String :=
     (match a.toInt?, b.toInt? with
      | some a, some b => slzMut p (pzRemRangeByRank p a b)
      | _, _ => (p, "bad-op"))
+  | ["ZRange", a, b] =>
+    (match a.toInt?, b.toInt? with
+     | some a, some b => (p, (slQuery p.sl ((pzRange p a b).map slItems)).2)
+     | _, _ => (p, "bad-op"))
+  | ["ZRevRange", a, b] =>
+    (match a.toInt?, b.toInt? with
+     | some a, some b => (p, (slQuery p.sl ((pzRevRange p a b).map slItems)).2)
+     | _, _ => (p, "bad-op"))
+  | ["ZCount", a, b, mode] =>
+    (match hexToU64 a, hexToU64 b, mode.toNat? with
+     | some a, some b, some mode => (p, (slQuery p.sl ((pzCount p a b mode).map fun n => s!"{n}")).2)
+     | _, _, _ => (p, "bad-op"))
+  | [cmd, a, b, off, cnt, mode] =>
+    if cmd != "ZRangeByScore" && cmd != "ZRevRangeByScore" then (p, "bad-op") else
+    (match hexToU64 a, hexToU64 b, off.toInt?, cnt.toInt?, mode.toNat? with
+     | some a, some b, some off, some cnt, some mode =>
+       (p, (slQuery p.sl ((pzRangeByScore p a b off cnt (cmd == "ZRevRangeByScore") mode).map slItems)).2)
+     | _, _, _, _, _ => (p, "bad-op"))
   | ["ZRank", m] =>
     (match parseArg m with
      | some m =>
